@@ -9,6 +9,7 @@ from gvsim.sim import Raised, sut
 
 PROP = 'C19'
 TIERS = {'quick': {'runs': 900, 'wall': 110, 'chunk': 6}, 'thorough': {'runs': 16000, 'wall': 1500, 'chunk': 10}}
+REACH = ['clear_caches', 'foreign_cached_query', 'repeat_other_variant', 'cached_vs_uncached', 'visibility_walls']  # probes / faults that must fire in every batch (reach gaps are reported in the evidence)
 RULE = ('one run = a query client issuing compute_ray / compute_rays / compute_rays_fancy and their cached variants for '
         'areas 1x1..9x9 (thorough: ..13x13; with and without coordinate offset) and every origin, in seeded order with '
         'repeats, interleaved with a visibility client calling the ray-traced visibility function on unobstructed and '
